@@ -31,6 +31,24 @@ for k in ks:
     if len(t) > 420: t = t[:420] + "…"
     out.append(f"| {k['id']} | {k['property']} | {k['status']} | {k.get('commit') or ''} | {t} |")
 out.append("")
+claims = json.load(open(os.path.join(V, "tools", "claims.json")))
+# Appendix F: cost of the registered commands (quick: from the committed evidence; thorough: from
+# tools/thorough_results.json, written from the final thorough pass)
+out += ["## Appendix F — measured cost of the registered commands (generated)\n"]
+tr = {}
+tf = os.path.join(V, "tools", "thorough_results.json")
+if os.path.exists(tf):
+    tr = json.load(open(tf))
+out += ["| property | quick wall (s) | quick paths | quick solver queries | thorough | ", "|---|---|---|---|---|"]
+for pid in sorted(claims):
+    ef = os.path.join(V, "evidence", pid + ".json")
+    if not os.path.exists(ef): continue
+    ev = json.load(open(ef))
+    cov = ev.get("coverage", {})
+    t = tr.get(pid)
+    tt = "not registered (did not finish within the cap)" if not t or t.get("exit") != 0 else f"exit 0 in {t['wall_s']} s (10 workers, machine shared with other runs; includes the z3 5.1.0 cross-check)"
+    out.append(f"| {pid} | {round(ev.get('wall_s', 0))} | {cov.get('states', '')} | {cov.get('queries', '')} | {tt} |")
+out.append("")
 rf = os.path.join(V, "seeded", "RESULTS.json")
 out += ["## Appendix E — seeded changes and which check reports them (generated from seeded/RESULTS.json)\n"]
 if os.path.exists(rf):
